@@ -8,6 +8,7 @@ from mpmath import iv
 
 from .. import ival as IV
 from ..model import strip_doc
+from ..symx import safe_simplify
 from ..report import AnalysisError, norm_src
 from ..symx import Untranslatable
 
@@ -193,7 +194,9 @@ def check_class(ctx, cls):
             elif "does not assign" in str(ex):
                 ctx.violation("R17-PURE", cls.file, qual, "f body", str(ex), f.lineno)
             else:
-                raise AnalysisError("%s: %s" % (qual, ex))
+                ctx.violation("R17-BOUND", cls.file, qual, "f body",
+                              "f(x) <= fmax cannot be established: the body of f uses a construct the interval interpreter does not "
+                              "cover (%s) - obligation not discharged" % ex, f.lineno)
             return
         ctx.ob("R17-PURE", not fe.writes and not fe.rng, cls.file, qual, "f writes no state and draws no random number (d=%d)" % d,
                "stores/effects in f: %s" % (fe.writes + fe.rng) if (fe.writes or fe.rng) else "no store, no RNG call, reads only x and "
@@ -273,7 +276,7 @@ def check_class(ctx, cls):
             for c, pol in pth.conds:
                 try:
                     cv = c.subs(sub) if hasattr(c, "subs") else c
-                    cv = sp.simplify(cv)
+                    cv = safe_simplify(cv)
                 except Exception:
                     cv = None
                 if cv is sp.true or cv is sp.false:
@@ -282,7 +285,7 @@ def check_class(ctx, cls):
             if not feas:
                 continue
             try:
-                gv = sp.simplify((pth.expr - fmax).subs(sub))
+                gv = safe_simplify((pth.expr - fmax).subs(sub))
                 b2 = {s: v for s, v in box.items() if s not in xs}
                 encl = IV.ieval(gv, b2)
                 gap = max(abs(encl.a), abs(encl.b))
